@@ -80,6 +80,10 @@ func SeqExec(j *Job, run func(cfg int, hist []int) *SeqOut) *JobResult {
 		}
 	}
 	for _, a := range ops {
+		if Expired() {
+			res.Cut = true
+			break
+		}
 		h := append(append([]int{}, sj.Hist...), a)
 		if a < 0 {
 			h = sj.Hist
@@ -183,6 +187,9 @@ func DriveSeq(c *Ctx, kind string, cfg, alphabet, depth int) SeqStats {
 					before := len(c.Agg.Viols)
 					c.Agg.Add(j, r)
 					_ = before
+					if r.Cut {
+						cut = true // the level is incomplete: it must not be reported as completed
+					}
 					var sr seqRes
 					if len(r.Extra) > 0 {
 						json.Unmarshal(r.Extra, &sr)
